@@ -53,6 +53,9 @@ func runFuzz(rc *runCtx, u Unit, replayInput string) unitResult {
 	pkgDir := filepath.Join(repo, strings.TrimPrefix(u.Pkg, "./"))
 	corpus := filepath.Join(pkgDir, "testdata", "fuzz", u.Name)
 	env := h.CleanEnv("HOME="+os.Getenv("HOME"), "GOFLAGS=-mod=mod", "CGO_ENABLED=0", "VERIF_TIER="+rc.tier)
+	if len(rc.exclude) > 0 && replayInput == "" {
+		env = append(env, "VERIF_EXCLUDE="+strings.Join(rc.exclude, ","))
+	}
 	var args []string
 	if replayInput != "" {
 		os.MkdirAll(corpus, 0o755)
